@@ -864,28 +864,26 @@ class SequentialContext:
             if inspect.iscoroutinefunction(fn):
 
                 def context_fn():
-                    cpy._enter_context(cpy, data)
-                    convert_executors(
-                        data.executors_before, mode=ExecutorMode.immediate_before
-                    )
-                    cohdl.coroutine_step(fn())
-                    convert_executors(
-                        data.executors_after, mode=ExecutorMode.immediate_after
-                    )
-                    cpy._exit_context()
+                    with _ContextScope(cpy, data):
+                        convert_executors(
+                            data.executors_before, mode=ExecutorMode.immediate_before
+                        )
+                        cohdl.coroutine_step(fn())
+                        convert_executors(
+                            data.executors_after, mode=ExecutorMode.immediate_after
+                        )
 
             else:
 
                 def context_fn():
-                    cpy._enter_context(cpy, data)
-                    convert_executors(
-                        data.executors_before, mode=ExecutorMode.immediate_before
-                    )
-                    fn()
-                    convert_executors(
-                        data.executors_after, mode=ExecutorMode.immediate_after
-                    )
-                    cpy._exit_context()
+                    with _ContextScope(cpy, data):
+                        convert_executors(
+                            data.executors_before, mode=ExecutorMode.immediate_before
+                        )
+                        fn()
+                        convert_executors(
+                            data.executors_after, mode=ExecutorMode.immediate_after
+                        )
 
             context_fn.__name__ = fn.__name__
             return _sequential_impl(
@@ -906,6 +904,27 @@ class SequentialContext:
 
 
 Context = SequentialContext
+
+
+class _ContextScope:
+    # Marks `ctx` as the current SequentialContext while the body of a
+    # with-statement is converted. Used instead of paired calls to
+    # _enter_context/_exit_context because the converter runs the intrinsic
+    # __exit__ even if the body is rejected, so the current context
+    # cannot leak into later compilations.
+
+    @pyeval
+    def __init__(self, ctx: SequentialContext, data: _ContextData):
+        self._ctx = ctx
+        self._data = data
+
+    @pyeval
+    def __enter__(self):
+        SequentialContext._enter_context(self._ctx, self._data)
+
+    @pyeval
+    def __exit__(self, type, value, traceback):
+        SequentialContext._exit_context()
 
 #
 #
